@@ -147,14 +147,29 @@ func (w *world) snapshotter(name string) {
 	dst := filepath.Join(w.dir, name)
 	_ = os.MkdirAll(dst, 0o755)
 	rec := &snapRec{dst: dst}
-	sched.Observe(func() { rec.startEpoch = w.t.CurrentEpoch() })
+		sched.Observe(func() { rec.startEpoch = w.t.CurrentEpoch() }) // 0 = already closed: the call must then find no snapshot
 	rec.ok, rec.err = w.t.TakeFileSnapshot(dst)
-	sched.Observe(func() { rec.endEpoch = w.t.CurrentEpoch() })
+	// upper bound: the newest epoch the introducer has announced so far (it registers an epoch right before
+	// publishing it). A concurrent Close does not disturb this bound.
+	for e := range w.flushed {
+		if e > rec.endEpoch {
+			rec.endEpoch = e
+		}
+	}
 	w.snaps = append(w.snaps, rec)
 }
 
 // checkSnapshot opens the snapshot directory as a table with the real recovery code and compares.
 func (w *world) checkSnapshot(rec *snapRec) {
+	if rec.err != nil && measure.V5IsNoSnapshot(rec.err) {
+		// the table had no current snapshot (it was closed before the call pinned one): nothing is written, the
+		// segment-level caller skips such a shard; legitimate only if a Close ran
+		if !w.closed {
+			w.bad("snapshot call found no current snapshot although the table holds data and is not closed")
+		}
+		w.outcome("no-current-snapshot")
+		return
+	}
 	if rec.err != nil {
 		if _, err := os.Stat(rec.dst); err == nil {
 			w.bad("snapshot call failed but its destination directory was not removed")
